@@ -292,10 +292,42 @@ def fmt_monitor(ctx):
                 ctx.disagreement("C09.model.fmtOk", f"format({ty}, {spec!r}) {'works' if real else 'raises'}, the Lean table says {model}", {"spec": spec, "type": ty})
 
 
+def trace_monitor(ctx, rng):
+    """the translator of `Generated/Blocks.lean` against the running code: the expression trees obtained by executing the
+    block classes symbolically, evaluated numerically, must be the matrices the real classes return (real numpy)"""
+    from translate import blocks as tb
+    from common import REPO
+    try:
+        traced = tb.trace_all(str(REPO))
+    except Exception as e:  # noqa  (already reported as a broken obligation by the Lean stage)
+        ctx.notes.append(f"block tracer: {type(e).__name__}: {str(e)[:200]}")
+        return
+    n = ctx.budget(12, 200)
+    for name, (args, desc, mat) in traced.items():
+        for i in range(n):
+            env = {}
+            for a in args:
+                lo, hi = tb.RANGES[a]
+                env[a] = pick(rng, lo, hi, p_int=0.25)
+            rep = {"kind": "trace", "block": name, "env": env}
+            ctx.case(rep, tags=[f"traced:{name}"])
+            try:
+                want = np.array(tb.eval_block(mat, env))
+                got = tb.real_block(str(REPO), name, env)
+            except Exception as e:  # noqa
+                ctx.disagreement("C09.translator.blocks", f"{name} ({desc}) at {env}: {type(e).__name__}: {str(e)[:80]}", rep)
+                break
+            if got.shape != want.shape or np.max(np.abs(got - want)) > 1e-10:
+                ctx.disagreement("C09.translator.blocks", f"{name} ({desc}) at {env}: traced expression and running code differ by "
+                                 f"{np.max(np.abs(got - want)) if got.shape == want.shape else 'shape'}", rep)
+                break
+
+
 def run(ctx):
     rng = ctx.subrng("c09")
     B = blocks()
     fmt_monitor(ctx)
+    trace_monitor(ctx, ctx.subrng("c09-trace"))
     n = ctx.budget(40, 1000)
     for name, spec in B.items():
         for i in range(n if name not in ("FPRGaussian", "FPR") else max(8, n // 5)):
@@ -318,6 +350,14 @@ def _cast(v, t):
 
 
 def replay(ctx, data):
+    if data.get("kind") == "trace":
+        from translate import blocks as tb
+        from common import REPO
+        traced = tb.trace_all(str(REPO))
+        want = np.array(tb.eval_block(traced[data["block"]][2], data["env"]))
+        got = tb.real_block(str(REPO), data["block"], data["env"])
+        d = float(np.max(np.abs(got - want)))
+        return d <= 1e-10, f"traced expression vs running code: max difference {d:.3g}"
     B = blocks()
     spec = B[data["block"]]
     a = {k: _cast(v, t) for k, (v, t) in data["args"].items()}
